@@ -1536,8 +1536,9 @@ func (r *run) finish() {
 		}
 		for sid, n := range owed {
 			if ackCount[sid] < n {
-				r.viol("C10", "content-message-not-acked",
-					fmt.Sprintf("server message %d was delivered %d time(s) with an odd seq_no but acknowledged %d time(s)", sid, n, ackCount[sid]))
+				text := fmt.Sprintf("server message %d was delivered %d time(s) with an odd seq_no but acknowledged %d time(s)", sid, n, ackCount[sid])
+				r.viol("C10", "content-message-not-acked", text)
+				r.viol("C16", "content-message-not-acked", text+" (well-formed service traffic must be handled like any other message)")
 			}
 		}
 	}
